@@ -114,46 +114,100 @@ func c09R2(c *Ctx, id string) {
 			}
 		}
 		c.check(id+":bbolt.newFreelist:total", nf, nf.Pos(), "newFreelist returns the hash-map backend for FreelistMapType and the array backend for every other value (never nil)", bad == "" && mapType != "", bad)
-		// (d) both Allocate record allocs[start] = txid and clear the cache for what they hand out
+		// (d) both Allocate record allocs[start] = txid and clear the cache for what they hand out. Looks through
+		// helpers in both directions: a hand-out return may live in a helper Allocate delegates to, and the cache
+		// clearing may be a call to a helper that (transitively) deletes from the cache.
+		clearsCache := func(in ssa.Instruction) bool {
+			call, ok := in.(*ssa.Call)
+			if !ok {
+				return false
+			}
+			if calleeOf(call).Builtin == "delete" && strings.HasSuffix(pathOf(call.Call.Args[0]).Names(), "cache") {
+				return true
+			}
+			seen := map[*ssa.Function]bool{}
+			var has func(f *ssa.Function, d int) bool
+			has = func(f *ssa.Function, d int) bool {
+				if f == nil || seen[f] || d > 3 || fnPkg(f) == nil || fnPkg(f).Path() != freelistPath {
+					return false
+				}
+				seen[f] = true
+				found := false
+				eachInstr(f, func(i2 ssa.Instruction) {
+					if c2, ok := i2.(*ssa.Call); ok {
+						if calleeOf(c2).Builtin == "delete" && strings.HasSuffix(pathOf(c2.Call.Args[0]).Names(), "cache") {
+							found = true
+						} else if has(calleeOf(c2).Static, d+1) {
+							found = true
+						}
+					}
+				})
+				return found
+			}
+			return has(calleeOf(call).Static, 0)
+		}
+		isPgid := func(t types.Type) bool { return strings.HasSuffix(t.String(), "common.Pgid") }
 		for _, tn := range []string{"array", "hashMap"} {
 			al := c.fn("freelist.(*" + tn + ").Allocate")
+			// the allocation call tree: Allocate and the package-local helpers it delegates the hand-out to
+			tree := []*ssa.Function{al}
+			inTree := map[*ssa.Function]bool{al: true}
+			for i := 0; i < len(tree); i++ {
+				eachInstr(tree[i], func(in ssa.Instruction) {
+					if call, ok := in.(*ssa.Call); ok {
+						f := calleeOf(call).Static
+						if f == nil || inTree[f] || fnPkg(f) == nil || fnPkg(f).Path() != freelistPath || f.Signature.Results().Len() == 0 || !isPgid(f.Signature.Results().At(0).Type()) {
+							return
+						}
+						inTree[f] = true
+						tree = append(tree, f)
+					}
+				})
+			}
 			bad := ""
 			n := 0
-			for _, r := range returnsOf(al) {
-				if v, isC := constInt(r.Results[0]); isC && v == 0 {
-					continue
-				}
-				n++
-				okAlloc, okCache := false, false
-				eachInstr(al, func(in ssa.Instruction) {
-					switch x := in.(type) {
-					case *ssa.MapUpdate:
-						if pathOf(x.Map).Names() == "shared.allocs" || strings.HasSuffix(pathOf(x.Map).Names(), "allocs") {
-							if p, isP := x.Value.(*ssa.Parameter); isP && strings.HasSuffix(p.Type().String(), "common.Txid") && dominates(x, r) {
-								// key must be the returned id
-								if x.Key == r.Results[0] {
+			for _, fn := range tree {
+				for _, r := range returnsOf(fn) {
+					if len(r.Results) == 0 {
+						continue
+					}
+					res := r.Results[0]
+					if v, isC := constInt(res); isC && v == 0 {
+						continue
+					}
+					// delegation: the id comes straight from another function of the tree
+					src := res
+					if ex, ok := src.(*ssa.Extract); ok {
+						src = ex.Tuple
+					}
+					if call, ok := src.(*ssa.Call); ok && inTree[calleeOf(call).Static] {
+						continue
+					}
+					n++
+					okAlloc, okCache := false, false
+					eachInstr(fn, func(in ssa.Instruction) {
+						if x, ok := in.(*ssa.MapUpdate); ok {
+							if strings.HasSuffix(pathOf(x.Map).Names(), "allocs") {
+								if p, isP := x.Value.(*ssa.Parameter); isP && strings.HasSuffix(p.Type().String(), "common.Txid") && dominates(x, r) && x.Key == res {
 									okAlloc = true
 								}
 							}
 						}
-					case *ssa.Call:
-						if calleeOf(x).Builtin == "delete" && strings.HasSuffix(pathOf(x.Call.Args[0]).Names(), "cache") {
-							if reach([]ssa.Instruction{x}, nil, nil, nil)[r] {
-								// in the same found-region: the return's block is dominated by the loop that clears
-								for b := x.Block(); b != nil; b = b.Idom() {
-									if b.Dominates(r.Block()) && b != al.Blocks[0] {
-										okCache = true
-									}
+						if clearsCache(in) && reach([]ssa.Instruction{in}, nil, nil, nil)[r] {
+							// in the same found-region: the return's block is dominated by the block (or loop) that clears
+							for b := in.Block(); b != nil; b = b.Idom() {
+								if b.Dominates(r.Block()) && b != fn.Blocks[0] {
+									okCache = true
 								}
 							}
 						}
+					})
+					if !okAlloc {
+						bad = "a page run is handed out at " + c.P.Position(r.Pos()) + " without allocs[start] = txid"
 					}
-				})
-				if !okAlloc {
-					bad = "a page run is handed out at " + c.P.Position(r.Pos()) + " without allocs[start] = txid"
-				}
-				if !okCache {
-					bad = "a page run is handed out at " + c.P.Position(r.Pos()) + " without removing its ids from the cache"
+					if !okCache {
+						bad = "a page run is handed out at " + c.P.Position(r.Pos()) + " without removing its ids from the cache"
+					}
 				}
 			}
 			c.check(id+":freelist.(*"+tn+").Allocate:bookkeeping", al, al.Pos(), fmt.Sprintf("every non-zero return records allocs[start] = txid and deletes the handed-out ids from the cache (%d hand-out returns)", n), bad == "" && n > 0, bad)
